@@ -665,6 +665,27 @@ pub fn case_cycle_for(prefix: &str, t: &mut Tape, st: &mut Stats) -> Verdict {
     }
 }
 
+/// Known finding: the condition evaluator and `release -r` recurse once per nesting level on the native stack, so a
+/// condition with some hundred thousand nested groups, or a chain of as many nested collections, overflows the stack
+/// of an ordinary thread and the process is aborted. Run in child processes on their main thread.
+fn probe_deep_nesting() -> Option<String> {
+    use std::os::unix::process::ExitStatusExt;
+    let exe = std::env::current_exe().ok()?;
+    let mut found = vec![];
+    for (kind, what) in [(0, "a condition of 70000 nested groups"), (1, "release -r on a chain of 30000 nested arrays")] {
+        if let Ok(o) = std::process::Command::new(&exe).args(["probe-deep", &kind.to_string()]).output() {
+            if let Some(sig) = o.status.signal() {
+                found.push(format!("{}: the process was killed by signal {}", what, sig));
+            }
+        }
+    }
+    if found.is_empty() {
+        None
+    } else {
+        Some(found.join("; "))
+    }
+}
+
 pub fn property() -> Property {
     Property {
         id: "C07",
@@ -721,6 +742,6 @@ pub fn property() -> Property {
                 min_classes: &[("cycle-through-a-non-canonical-absolute-path", 20)],
             },
         ],
-        probes: vec![],
+        probes: vec![Probe { signature: "C07/stack-overflow-on-very-deep-nesting", run: probe_deep_nesting }],
     }
 }
